@@ -103,7 +103,8 @@ pub(crate) fn written_name(name: &str) -> String {
                 .iter()
                 .any(|constant| constant.name.value() == fragment)
     });
-    if reinterpreted {
+    // (a literal name that holds a brace index, `\\y_{i}`, would read as that index)
+    if reinterpreted || name.contains('{') {
         format!("\\{}", name)
     } else {
         name.to_string()
